@@ -102,6 +102,14 @@ Theorem C12_simpson2d_calls : forall (f : R -> R -> C) (ax bx ay by_ : R) divs, 
   (Z.to_nat (simpson2d_norm divs + 1) * Z.to_nat (simpson2d_norm divs + 1))%nat.
 Proof. exact simpson2d_calls_count. Qed.
 
+(* ---- Integrator::integrate / integrate2d: the Simpson and AdaptiveSimpson arms (translated) pass their arguments through *)
+Theorem C12_dispatch : forall (f : R -> C) (g : R -> R -> C) (a b c d eps : R) divs depth,
+  integrate_Simpson Rops f a b divs = simpson Rops f a b divs /\
+  integrate2d_Simpson Rops g a b c d divs = simpson2d Rops g a b c d divs /\
+  integrate_AdaptiveSimpson Rops f a b eps depth = simpson_adaptive Rops f a b eps depth /\
+  integrate2d_AdaptiveSimpson Rops g a b c d eps depth = simpson_adaptive_2d Rops g a b c d eps depth.
+Proof. exact dispatch_simpson. Qed.
+
 (* ---- any fixed rule (Simpson, and the gauss-quad adapter whatever its table is) *)
 Theorem C12_linear : forall (r : rule Rops) (alpha beta : C) (f g : R -> C),
   apply_rule Rops r (fun x => Cplus (Cmult alpha (f x)) (Cmult beta (g x))) =
@@ -272,6 +280,7 @@ Print Assumptions C12_simpson2d_product_of_1d.
 Print Assumptions C12_simpson2d_reverse.
 Print Assumptions C12_simpson2d_linear.
 Print Assumptions C12_simpson2d_calls.
+Print Assumptions C12_dispatch.
 Print Assumptions C12_linear.
 Print Assumptions C12_linear_2d.
 Print Assumptions C12_tensor.
